@@ -149,7 +149,7 @@ def main(argv=None):
         if evaluations == 0:
             inconclusive.append("no evaluations")
     reach_rows = reach.table(prop, VERIF, pv.SRC, hits) if hits else []
-    if not a.replay and reach_rows and not os.environ.get("PV_NO_REACH"):
+    if not a.replay and reach_rows and not os.environ.get("PV_NO_REACH") and not os.environ.get("PV_REPO"):
         for row in reach_rows:
             if row["lines"] > 0 and row["hit"] == 0 and row["mechanism"] not in getattr(mod, "REACH_OPTIONAL", ()):
                 inconclusive.append(f"anchored mechanism never executed: {row['mechanism']}")
